@@ -33,6 +33,19 @@ type RegexInfo struct {
 	Prefix    []byteSet
 	Suffix    []byteSet // from the end: Suffix[0] is the last byte
 	Err       string
+	Tiles     int // n > 0: pattern is ^(g1)..(gn)$, the groups tile the subject
+}
+
+func hasCapture(re *syntax.Regexp) bool {
+	if re.Op == syntax.OpCapture {
+		return true
+	}
+	for _, s := range re.Sub {
+		if hasCapture(s) {
+			return true
+		}
+	}
+	return false
 }
 
 // regexLiteralOf finds the pattern literal behind the receiver expression of a regexp
@@ -219,6 +232,30 @@ func (w *World) regexInfo(lit string) *RegexInfo {
 	if len(elems) > 0 && elems[len(elems)-1].Op == syntax.OpEndText {
 		ri.AnchorEnd = true
 		elems = elems[:len(elems)-1]
+	}
+	if ri.AnchorBeg && ri.AnchorEnd {
+		// top-level shape ^(..)(..)..(..)$ with top-level captures numbered 1..n
+		top := []*syntax.Regexp{re}
+		if re.Op == syntax.OpConcat {
+			top = re.Sub
+		}
+		n := 0
+		okTiles := true
+		for _, e := range top {
+			switch e.Op {
+			case syntax.OpBeginText, syntax.OpEndText:
+			case syntax.OpCapture:
+				n++
+				if e.Cap != n || hasCapture(e.Sub[0]) {
+					okTiles = false
+				}
+			default:
+				okTiles = false
+			}
+		}
+		if okTiles && n == ri.NumSubexp && n > 0 {
+			ri.Tiles = n
+		}
 	}
 	for _, e := range elems {
 		ri.MinLen += minLen(e)
@@ -421,6 +458,14 @@ func (w *World) regexUFDecls(text string) string {
 			fmt.Fprintf(&b, "(declare-fun regroup_%s_%d (Str) Str)\n", id, k)
 			fmt.Fprintf(&b, "(assert (forall ((s Str)) (! (=> (wfstr s) (wfstr (regroup_%s_%d s))) :pattern ((regroup_%s_%d s)))))\n", id, k, id, k)
 		}
+		if ri.Tiles > 0 {
+			// T2: the pattern is ^(g1)(g2)..(gn)$ - the groups tile the whole subject
+			cat := fmt.Sprintf("(regroup_%s_1 s)", id)
+			for k := 2; k <= ri.Tiles; k++ {
+				cat = fmt.Sprintf("(scat %s (regroup_%s_%d s))", cat, id, k)
+			}
+			fmt.Fprintf(&b, "(assert (forall ((s Str)) (! (=> (rematch_%s s) (= s %s)) :pattern ((rematch_%s s)))))\n", id, cat, id)
+		}
 	}
 	return b.String()
 }
@@ -429,6 +474,16 @@ func (w *World) regexUFDecls(text string) string {
 func (fc *FnCtx) trRegexpMethod(st *State, call *ast.CallExpr, fn *types.Func, recvExpr ast.Expr) ([]Val, bool) {
 	lit, ok := fc.regexLiteralOf(recvExpr)
 	if !ok {
+		// a pattern computed at run time (regexp.MustCompile(fmt.Sprintf(...))): its verdict is
+		// an uninterpreted function of (pattern text, subject)
+		rv := fc.tr(st, recvExpr)
+		if rv.S == SRec && rv.Rec != "" {
+			if pat, ok := st.env[rv.Rec+".$pattern"]; ok && (fn.Name() == "Match" || fn.Name() == "MatchString") {
+				a := fc.tr(st, call.Args[0])
+				fc.w.needDynRe = true
+				return []Val{boolVal("(rematchdyn " + pat.T + " " + a.T + ")")}, true
+			}
+		}
 		return nil, false
 	}
 	ri := fc.w.regexInfo(lit)
@@ -454,6 +509,21 @@ func (fc *FnCtx) trRegexpMethod(st *State, call *ast.CallExpr, fn *types.Func, r
 		st.addAssume("(= (not (= (illen " + loc.T + ") 0)) (rematch_" + fc.w.regexUF(lit) + " " + args[0].T + "))")
 		st.addAssume("(or (= (illen " + loc.T + ") 0) (and (= (illen " + loc.T + ") 2) " + ri.matchFacts(args[0].T, a, b) + "))")
 		return []Val{loc}, true
+	case "FindAllStringSubmatch", "FindAllSubmatch":
+		// only the first match is modelled: value = (count, first match list)
+		ms := fc.freshVal(st, "re_sub", SSL, nil)
+		cnt := fc.freshVal(st, "re_count", SInt, nil)
+		id := fc.w.regexUF(lit)
+		a := fc.declare("re_a", SInt)
+		b := fc.declare("re_b", SInt)
+		var groups []string
+		for k := 0; k <= ri.NumSubexp; k++ {
+			groups = append(groups, fmt.Sprintf("(= (sat_ %s %d) (regroup_%s_%d %s))", ms.T, k, id, k, args[0].T))
+		}
+		st.addAssume("(>= " + cnt.T + " 0)")
+		st.addAssume("(= (> " + cnt.T + " 0) (rematch_" + id + " " + args[0].T + "))")
+		st.addAssume("(=> (> " + cnt.T + " 0) (and (= (sllen " + ms.T + ") " + fmt.Sprint(ri.NumSubexp+1) + ") " + ri.matchFacts(args[0].T, a, b) + " " + strings.Join(groups, " ") + "))")
+		return []Val{{S: SLL, T: ms.T, Rec: cnt.T}}, true
 	case "FindStringSubmatch", "FindSubmatch":
 		ms := fc.freshVal(st, "re_sub", SSL, nil)
 		a := fc.declare("re_a", SInt)
